@@ -151,6 +151,14 @@ End(r) ==
   /\ ops' = Append(ops, Op("end", r, LenCode(r), 0))
   /\ UNCHANGED <<N, W, mode, kind, perm, smp, refused>>
 
+\* the consumer drops a live iterator without exhausting it (break out of the loop, zip with a shorter
+\* iterable, islice(len)); nothing else changes: the epoch counter already moved on when it was created
+Abandon(r) ==
+  /\ "abandon" \in Features /\ it[r].on
+  /\ it' = [it EXCEPT ![r] = NoIt]
+  /\ ops' = Append(ops, Op("abandon", r, 0, 0))
+  /\ UNCHANGED <<N, W, mode, kind, perm, smp, refused, log>>
+
 Init ==
   /\ N \in 0..MaxN /\ W \in 1..MaxW /\ mode \in ModeSet /\ kind \in KindSet
   /\ (kind = "random" => N <= RandomMaxN)
@@ -168,7 +176,8 @@ DoBeginGet == Live /\ \E r \in Ranks, e \in 0..MaxEpoch : BeginGet(r, e)
 DoBeginFull == Live /\ \E r \in Ranks, e \in 0..MaxEpoch : BeginFull(r, e)
 DoYield == Live /\ \E r \in Ranks, x \in 0..(N - 1) : Yield(r, x)
 DoEnd == Live /\ \E r \in Ranks : End(r)
-Next == DoConstruct \/ DoBeginIter \/ DoBeginGet \/ DoBeginFull \/ DoYield \/ DoEnd
+DoAbandon == Live /\ \E r \in Ranks : Abandon(r)
+Next == DoConstruct \/ DoBeginIter \/ DoBeginGet \/ DoBeginFull \/ DoYield \/ DoEnd \/ DoAbandon
 Spec == Init /\ [][Next]_vars
 
 (***************************************************************************)
